@@ -3,6 +3,7 @@ package main
 import (
 	"fmt"
 	"go/ast"
+	"go/token"
 	"go/types"
 	"strings"
 )
@@ -501,15 +502,7 @@ func ruleC13parts(p *Prog, r *Res, ruleB string, partA, partB bool) {
 			switch {
 			case f.Key() == "manager.indexReleaser.release":
 				// must be guarded by the use-count reaching zero: the call lies inside an if whose condition compares usedIndexes[...] == 0
-				guarded := false
-				ast.Inspect(f.Body(), func(y ast.Node) bool {
-					if ifs, ok := y.(*ast.IfStmt); ok && within(c, ifs.Body) {
-						if be, ok := ifs.Cond.(*ast.BinaryExpr); ok && be.Op.String() == "==" && strings.Contains(types.ExprString(be.X), "usedIndexes") && types.ExprString(be.Y) == "0" {
-							guarded = true
-						}
-					}
-					return true
-				})
+				guarded := useCountZeroGuards(p, f, c)
 				r.Check(guarded, ruleD, key, p.Pos(c), "guarded by usedIndexes[i] == 0", "Reader.Close in release() is not guarded by the use-count reaching zero")
 			default:
 				// receiver must derive from a local (non-parameter) variable of the enclosing declaration
@@ -800,4 +793,88 @@ func isEmptySliceExpr(e ast.Expr) bool {
 		}
 	}
 	return false
+}
+
+// useCountZeroGuards: node c of function f is reached only when the use count of an index has reached zero. A count is
+// an element of Manager.usedIndexes or a local whose only definition is computed from one; the guard is an enclosing
+// `if count == 0 { … c … }` or a preceding `if count != 0 { continue / return }` in a block that encloses c.
+func useCountZeroGuards(p *Prog, f *Fn, c ast.Node) bool {
+	info := f.Pkg.TypesInfo
+	fld := p.Field("manager", "Manager", "usedIndexes")
+	if fld == nil {
+		return false
+	}
+	var isCount func(e ast.Expr, depth int) bool
+	isCount = func(e ast.Expr, depth int) bool {
+		e = ast.Unparen(e)
+		if ix, ok := e.(*ast.IndexExpr); ok && isFieldOf(info, ix.X, fld) {
+			return true
+		}
+		if o := identObj(info, e); o != nil && depth < 2 {
+			nDef, from := 0, false
+			ast.Inspect(f.Body(), func(y ast.Node) bool {
+				if as, ok := y.(*ast.AssignStmt); ok && len(as.Lhs) == len(as.Rhs) {
+					for i, l := range as.Lhs {
+						if identObj(info, l) == o {
+							nDef++
+							ast.Inspect(as.Rhs[i], func(z ast.Node) bool {
+								if ze, ok := z.(ast.Expr); ok && isCount(ze, depth+1) {
+									from = true
+								}
+								return !from
+							})
+						}
+					}
+				}
+				return true
+			})
+			return nDef == 1 && from
+		}
+		return false
+	}
+	cmpZero := func(cond ast.Expr, op token.Token) bool {
+		be, ok := ast.Unparen(cond).(*ast.BinaryExpr)
+		if !ok || be.Op != op {
+			return false
+		}
+		return (isCount(be.X, 0) && isZeroLit(be.Y)) || (isCount(be.Y, 0) && isZeroLit(be.X))
+	}
+	guarded := false
+	inspectParents(f.Body(), func(y ast.Node, ps []ast.Node) bool {
+		if y != c {
+			return true
+		}
+		for i, par := range ps {
+			switch s := par.(type) {
+			case *ast.IfStmt:
+				var child ast.Node = c
+				if i+1 < len(ps) {
+					child = ps[i+1]
+				}
+				if child == ast.Node(s.Body) && cmpZero(s.Cond, token.EQL) {
+					guarded = true
+				}
+			case *ast.BlockStmt:
+				for _, st := range s.List {
+					if st.End() > c.Pos() {
+						break
+					}
+					ifs, ok := st.(*ast.IfStmt)
+					if !ok || ifs.Else != nil || len(ifs.Body.List) == 0 || !cmpZero(ifs.Cond, token.NEQ) {
+						continue
+					}
+					switch last := ifs.Body.List[len(ifs.Body.List)-1].(type) {
+					case *ast.BranchStmt:
+						if last.Tok == token.CONTINUE {
+							guarded = true
+						}
+					case *ast.ReturnStmt:
+						guarded = true
+					}
+				}
+			}
+		}
+		return true
+	})
+	return guarded
 }
